@@ -34,6 +34,9 @@ type val struct {
 	// those are sent by ONE call PutClassAdRawBytes(exprs, myType, targetType); on the wire
 	// (and for the model, the format encoder and the reader) they are just those values
 	Ad bool `json:"ad,omitempty"`
+	// API: the exported method this value is written with ("" = the Put* method of its kind),
+	// see api.go; the value is read back with the paired method (Put*->Get*, Code*->Code*)
+	API string `json:"api,omitempty"`
 }
 
 func (v val) bytes() []byte {
@@ -78,6 +81,8 @@ func (v val) term() string {
 		return "(VStrB " + v.bytesTerm() + ")"
 	case "double":
 		return "(VDouble " + dbits(v.Bits) + ")"
+	case "float": // PutFloat(f) = PutDouble(float64(f)): the model sees the widened pattern
+		return "(VDouble " + dbits(widenBits(uint32(v.I))) + ")"
 	default:
 		return "(VBytes " + v.bytesTerm() + ")"
 	}
@@ -85,26 +90,7 @@ func (v val) term() string {
 
 var ctx = context.Background()
 
-func put(m *message.Message, v val) error {
-	switch v.Kind {
-	case "char":
-		return m.PutChar(ctx, byte(v.I))
-	case "int":
-		return m.PutInt64(ctx, v.I)
-	case "int32":
-		return m.PutInt32(ctx, int32(v.I))
-	case "uint32":
-		return m.PutUint32(ctx, uint32(v.I))
-	case "str":
-		return m.PutString(ctx, string(v.bytes()))
-	case "strb":
-		return m.PutStringBytes(ctx, v.bytes())
-	case "double":
-		return m.PutDouble(ctx, math.Float64frombits(v.Bits))
-	default:
-		return m.PutBytes(ctx, v.bytes())
-	}
-}
+func put(m *message.Message, v val) (error, string) { return putVia(m, v) }
 
 // putAll sends vs through the real writer the way cedar's callers use the []byte entry
 // points (PutStringBytes, PutBytes, PutClassAdRawBytes: "b is not modified", "may alias a
@@ -154,10 +140,22 @@ func putAll(m *message.Message, vs []val) (putErr error, alias string) {
 			if n < 0 || i+n+2 >= len(vs) {
 				return fmt.Errorf("harness: malformed ad group"), alias
 			}
+			if n > 0 && vs[i+1].Kind == "str" { // the string flavour: PutClassAdRaw
+				strs := make([]string, n)
+				for k := 0; k < n; k++ {
+					strs[k] = string(vs[i+1+k].bytes())
+				}
+				called["PutClassAdRaw"]++
+				putErr = m.PutClassAdRaw(ctx, strs, string(vs[i+1+n].bytes()), string(vs[i+2+n].bytes()))
+				check("PutClassAdRaw")
+				i += n + 2
+				break
+			}
 			exprs := make([][]byte, n)
 			for k := 0; k < n; k++ {
 				exprs[k] = arg(i + 1 + k)
 			}
+			called["PutClassAdRawBytes"]++
 			putErr = m.PutClassAdRawBytes(ctx, exprs, string(vs[i+1+n].bytes()), string(vs[i+2+n].bytes()))
 			check("PutClassAdRawBytes")
 			for k := 0; k < n; k++ {
@@ -166,16 +164,22 @@ func putAll(m *message.Message, vs []val) (putErr error, alias string) {
 			}
 			i += n + 2
 		case v.Kind == "strb":
+			called["PutStringBytes"]++
 			putErr = m.PutStringBytes(ctx, arg(i))
 			check("PutStringBytes")
 			clobber(i)
 		case v.Kind == "bytes":
+			called["PutBytes"]++
 			putErr = m.PutBytes(ctx, arg(i))
 			check("PutBytes")
 			clobber(i)
 		default:
-			putErr = put(m, v)
-			check("Put " + v.Kind)
+			var modified string
+			putErr, modified = put(m, v)
+			if modified != "" && alias == "" {
+				alias = modified
+			}
+			check(v.api())
 		}
 		if putErr != nil {
 			return putErr, alias
@@ -188,7 +192,9 @@ func putAll(m *message.Message, vs []val) (putErr error, alias string) {
 func adGroup(exprs []val, myType, targetType string) []val {
 	vs := []val{{Kind: "int", I: int64(len(exprs)), Ad: true}}
 	for _, e := range exprs {
-		e.Kind = "strb"
+		if e.Kind != "str" {
+			e.Kind = "strb"
+		}
 		vs = append(vs, e)
 	}
 	return append(vs, val{Kind: "str", B: []byte(myType)}, val{Kind: "str", B: []byte(targetType)})
@@ -225,6 +231,10 @@ func specEncode(enc bool, vs []val) []byte {
 			b.WriteByte(0)
 		case "double":
 			fi, e := specDoubleInts(v.Bits)
+			i64(fi)
+			i64(e)
+		case "float": // a float travels as the double of the same value
+			fi, e := specDoubleInts(widenBits(uint32(v.I)))
 			i64(fi)
 			i64(e)
 		default:
@@ -369,8 +379,9 @@ func xframe(f mock.Frame) string {
 var fullFrameMax = 96
 
 type gop struct {
-	Op string `json:"op"`
-	N  int64  `json:"n,omitempty"`
+	Op  string `json:"op"`
+	N   int64  `json:"n,omitempty"`
+	API string `json:"api,omitempty"` // the exported method to read with ("" = the Get* method of Op)
 }
 
 func (g gop) term() string {
@@ -442,49 +453,22 @@ func doGet(m *message.Message, g gop) (res gres) {
 	}()
 	wrap := func(err error) gres { return gres{Kind: "err", Cls: errClass(err)} }
 	switch g.Op {
-	case "char":
-		c, err := m.GetChar(ctx)
-		if err != nil {
-			return wrap(err)
-		}
-		return gres{Kind: "char", I: int64(c)}
-	case "int":
-		v, err := m.GetInt64(ctx)
-		if err != nil {
-			return wrap(err)
-		}
-		return gres{Kind: "int", I: v}
-	case "int32":
-		v, err := m.GetInt32(ctx)
-		if err != nil {
-			return wrap(err)
-		}
-		return gres{Kind: "int", I: int64(v)}
-	case "uint32":
-		v, err := m.GetUint32(ctx)
-		if err != nil {
-			return wrap(err)
-		}
-		return gres{Kind: "int", I: int64(v)}
-	case "str":
-		s, err := m.GetString(ctx)
-		if err != nil {
-			return wrap(err)
-		}
-		return gres{Kind: "bytes", B: []byte(s)}
 	case "bytes":
+		called["GetBytes"]++
 		b, err := m.GetBytes(ctx, int(g.N))
 		if err != nil {
 			return wrap(err)
 		}
 		return gres{Kind: "bytes", B: b}
-	case "double":
-		d, err := m.GetDouble(ctx)
+	case "remain":
+	default:
+		r, err := getVia(m, g)
 		if err != nil {
 			return wrap(err)
 		}
-		return gres{Kind: "double", Bits: math.Float64bits(d)}
+		return r
 	}
+	called["GetRemainingBytes"]++
 	b, err := m.GetRemainingBytes(ctx)
 	if err != nil {
 		return wrap(err)
@@ -539,20 +523,12 @@ func opsFor(vs []val) []gop {
 	var ops []gop
 	for _, v := range vs {
 		switch v.Kind {
-		case "char":
-			ops = append(ops, gop{Op: "char"})
-		case "int":
-			ops = append(ops, gop{Op: "int"})
-		case "int32":
-			ops = append(ops, gop{Op: "int32"})
-		case "uint32":
-			ops = append(ops, gop{Op: "uint32"})
-		case "str", "strb":
+		case "strb":
 			ops = append(ops, gop{Op: "str"})
-		case "double":
-			ops = append(ops, gop{Op: "double"})
-		default:
+		case "bytes":
 			ops = append(ops, gop{Op: "bytes", N: int64(len(v.bytes()))})
+		default: // read with the method paired with the one it was written with
+			ops = append(ops, gop{Op: v.Kind, API: getAPIFor(v.API)})
 		}
 	}
 	return ops
@@ -573,6 +549,8 @@ func expect(v val) gres {
 		return gres{Kind: "bytes", B: s}
 	case "double":
 		return gres{Kind: "double", Bits: v.Bits}
+	case "float":
+		return gres{Kind: "float", Bits: uint64(uint32(v.I))}
 	}
 	return gres{Kind: "bytes", B: v.bytes()}
 }
@@ -582,6 +560,24 @@ func expect(v val) gres {
 // (|r - want| <= |want| * 2^-30, exact rational arithmetic) and, in addition, equal to
 // the format's own decoding of the format's own encoding, bit for bit.
 func sameRes(r, want gres) bool {
+	if want.Kind == "float" {
+		// float32 has 24 significant bits, the format 30: a finite float comes back exactly
+		// (-0 as +0), and equals the math/big reference (narrowing of the reference double)
+		f := uint32(want.Bits)
+		if r.Kind != "float" {
+			return false
+		}
+		if !finite32(f) {
+			return true
+		}
+		fi, e := specDoubleInts(widenBits(f))
+		ref := narrowBits(specDoubleDecode(fi, e))
+		exact := f
+		if f == 1<<31 {
+			exact = 0
+		}
+		return uint32(r.Bits) == ref && uint32(r.Bits) == exact
+	}
 	if want.Kind == "double" {
 		if r.Kind != "double" {
 			return false
@@ -607,6 +603,7 @@ func encodeCase(c *core.Ctx, enc bool, vs []val) ([]mock.Frame, bool) {
 		c.OracleFail("put-error", fmt.Sprintf("Put returned %v", putErr), map[string]interface{}{"kind": "enc", "enc": enc, "vals": vs})
 		return nil, false
 	}
+	called["FinishMessage"]++
 	if err := m.FinishMessage(ctx); err != nil {
 		return nil, false
 	}
@@ -670,7 +667,7 @@ func dbits(b uint64) string {
 
 func hasNonFinite(vs []val) bool {
 	for _, v := range vs {
-		if v.Kind == "double" && !finiteBits(v.Bits) {
+		if v.Kind == "double" && !finiteBits(v.Bits) || v.Kind == "float" && !finite32(uint32(v.I)) {
 			return true
 		}
 	}
@@ -714,6 +711,12 @@ func decodeCaseT(c *core.Ctx, enc bool, frames []mock.Frame, dataTerm string, op
 	if okAll {
 		c.Count("dec-all-ok")
 	}
+	for _, g := range ops {
+		if g.Op == "float" { // GetFloat = float32(GetDouble): the narrowing is not in the Coq model; oracle only
+			c.Count("dec-float-oracle-only")
+			return
+		}
+	}
 	c.AddCase(fmt.Sprintf("CDec %s %s %s %s", core.Bool(enc), framesTerm(frames, dataTerm), core.List(ot), core.List(obs)), desc)
 }
 
@@ -729,6 +732,14 @@ var intEdges = []int64{0, 1, -1, 127, 128, 255, 256, -128, -129, 32767, 32768, -
 	math.MaxInt64, math.MinInt64, math.MaxInt64 - 1, math.MinInt64 + 1, 0x0102030405060708, -0x0102030405060708}
 
 func randVal(c *core.Ctx, small bool) val {
+	v := randVal0(c, small)
+	if as := putAPIs[v.Kind]; len(as) > 1 {
+		v.API = as[c.Rng.Intn(len(as))] // any entry point that can carry this value (Put*, Code*)
+	}
+	return v
+}
+
+func randVal0(c *core.Ctx, small bool) val {
 	r := c.Rng
 	switch r.Intn(9) {
 	case 0:
@@ -786,9 +797,9 @@ func randVal(c *core.Ctx, small bool) val {
 }
 
 func gen(c *core.Ctx) error {
-	c.Rule("encode: random and boundary value sequences (chars, integers of every width, strings, byte strings, doubles as 64-bit patterns) through the real Message writer on a recording stream, compared frame by frame with the model writer and byte for byte with an independent format encoder (math/big for doubles); decode: the encoded bytes re-cut at every single position (short sequences, every special double) and random multi-cuts, plus malformed inputs and integer pairs no encoder produces, through the real Message reader, compared op by op (also after an error result) with the model reader; every []byte argument (PutStringBytes, PutBytes, the expressions of PutClassAdRawBytes) is a sub-slice of one shared scratch buffer with live data behind it and is overwritten by the harness after the call; oracles on the implementation: the caller's buffer is unchanged by every Put call, layout = format definition, decoded = sent (doubles: |decoded-sent| <= |sent|*2^-30 in exact rationals and bit-equal to the math/big reference decoder), EOM only on the last frame. non-trivial = decode case in which every Get succeeded, or encode case; distinct by (mode, values, cuts)")
+	c.Rule("encode: random and boundary value sequences (chars, integers of every width, strings, byte strings, doubles as 64-bit patterns) through the real Message writer on a recording stream - each value through any exported entry point that can carry it (Put*, Code* in encode direction, PutClassAdRaw[Bytes]) and read back through the paired one (Get*, Code* in decode direction); every exported method of Message is exercised or allow-listed (gen/FactsC14.v, theorem C14_entry_points_covered) -, compared frame by frame with the model writer and byte for byte with an independent format encoder (math/big for doubles); decode: the encoded bytes re-cut at every single position (short sequences, every special double) and random multi-cuts, plus malformed inputs and integer pairs no encoder produces, through the real Message reader, compared op by op (also after an error result) with the model reader; every []byte argument (PutStringBytes, PutBytes, the expressions of PutClassAdRawBytes) is a sub-slice of one shared scratch buffer with live data behind it and is overwritten by the harness after the call; oracles on the implementation: the caller's buffer is unchanged by every Put call, layout = format definition, decoded = sent (doubles: |decoded-sent| <= |sent|*2^-30 in exact rationals and bit-equal to the math/big reference decoder), EOM only on the last frame. non-trivial = decode case in which every Get succeeded, or encode case; distinct by (mode, values, cuts)")
 	c.Assume("float->int32 conversion of NaN/Inf is implementation-defined in Go; the model has the amd64 semantics (CVTTSD2SL, -2^31) and NaN/Inf cases are compared only when GOARCH=amd64 (this run: " + runtime.GOARCH + ")")
-	nSeq := 42
+	nSeq := 36
 	nBig := 6
 	if !c.Quick() {
 		nSeq, nBig = 600, 40
@@ -932,6 +943,12 @@ func gen(c *core.Ctx) error {
 				[]val{{Off: 11, Len: 2097152, NZ: true}, {Off: 13, Len: 1048567, NZ: true}, {B: []byte("After = 2")}})
 		}
 		for ai, exprs := range ads {
+			if ai%2 == 1 && ai < 7 { // the string flavour of the same call: PutClassAdRaw
+				exprs = append([]val(nil), exprs...)
+				for k := range exprs {
+					exprs[k].Kind = "str"
+				}
+			}
 			vs := append([]val{{Kind: "char", I: 0x5b}}, adGroup(exprs, "Machine", "Job")...)
 			vs = append(vs, val{Kind: "strb", B: []byte("tail")}, val{Kind: "char", I: 0x5d})
 			fr, ok := encodeCase(c, enc, vs)
@@ -1047,6 +1064,16 @@ func gen(c *core.Ctx) error {
 					if c.Rng.Intn(6) == 0 { // sometimes lose the EOM frame: transport ends mid-message
 						fr[len(fr)-1].EOM = false
 					}
+					ops := append([]gop(nil), ops...)
+					for k := range ops { // malformed input through every reading entry point (Get*, Code* in decode direction)
+						var alts []string
+						for _, a := range putAPIs[ops[k].Op] {
+							alts = append(alts, getAPIFor(a))
+						}
+						if len(alts) > 1 {
+							ops[k].API = alts[c.Rng.Intn(len(alts))]
+						}
+					}
 					desc := map[string]interface{}{"kind": "dec-malformed", "enc": enc, "bytes": b, "cuts": cs, "ops": ops}
 					decodeCaseDesc(c, enc, fr, ops, nil, desc)
 				}
@@ -1054,7 +1081,11 @@ func gen(c *core.Ctx) error {
 		}
 	}
 	genDoubles(c)
-	return nil
+	genAPIs(c)
+	for _, a := range core.SortedKeys(called) {
+		c.CountN("api-"+a, called[a])
+	}
+	return everyExercisedWasCalled()
 }
 
 // ---- doubles ---------------------------------------------------------------
@@ -1325,6 +1356,7 @@ func replay(raw json.RawMessage) error {
 	} else if putErr != nil {
 		return fmt.Errorf("put: %v", putErr)
 	}
+	called["FinishMessage"]++
 	if err := m.FinishMessage(ctx); err != nil {
 		return err
 	}
@@ -1352,4 +1384,4 @@ func replay(raw json.RawMessage) error {
 	return nil
 }
 
-func main() { core.Main("C14", gen, replay) }
+func main() { core.MainWithFacts("C14", gen, replay, facts) }
